@@ -366,11 +366,18 @@ func runC02(e *Env) {
 	for _, s := range shapes {
 		cliCases = append(cliCases, playCase{Insts: []refplay.Inst{mk(shape{2, []timing.Frac{fr(1, 3)}}), mk(s), mk(shape{0, []timing.Frac{fr(1, 1)}})}, Path: "cli"})
 	}
+	for _, a := range sub {
+		for _, b := range sub {
+			for _, t := range []int{1, 3} {
+				cliCases = append(cliCases, playCase{Insts: []refplay.Inst{mk(a), mk(b), mk(shape{0, []timing.Frac{fr(1, 1)}})}, Cfg: writeCfg{Tracks: t}, Path: "cli"})
+			}
+		}
+	}
 	mc.ParFor(len(cliCases), func(i int) {
 		c := cliCases[i]
 		c02Eval(e, m, &c, true)
 		e.R.Trace(1)
 	})
-	e.R.AddPart(ev.Part{Name: "cli-histories", Enumerated: "real binary: R[1/3] X C[1] for each of the 72 timed shapes X", Executions: int64(len(cliCases)), Exhaustive: true})
+	e.R.AddPart(ev.Part{Name: "cli-histories", Enumerated: "real binary: R[1/3] X C[1] for each timed shape X; all pairs over the 12-shape sub-alphabet followed by C[1] on 1 and 3 tracks", Executions: int64(len(cliCases)), Exhaustive: true})
 	c02Accounting(e)
 }
